@@ -116,6 +116,21 @@ CLAIMS = {
              "outside the property's alphabet; the table itself has no direction.",
         technique="Coq proof (complete kernel enumeration of the step relation + induction over histories) + translator + exhaustive graph correspondence",
         design="4/C03"),
+    "C19": dict(
+        text="Coq theorems (axiom-free) about the model of DlmsClient over the association model: for a block transfer of "
+             "two or more blocks of ANY number and sizes (empty blocks included; induction over the block list) GET returns "
+             "the concatenation in order, acknowledges every non-final block with a next-block request carrying that "
+             "block's number and invoke id, and leaves the association READY with nothing buffered; a single normal "
+             "answer returns exactly its data; an error result immediately or on the last block raises and never returns "
+             "data; SET returns the meter's result unchanged; ACTION returns data only for a success status. Normal and "
+             "pre-established associations. Tie: sessions of many operations (data to 100000 bytes, 2..200 blocks, every "
+             "DataAccessResult at both positions, unexpected answers) run as the same script on the model and on the real "
+             "DlmsClient over a scripted io_interface, plain and ciphered.",
+        note="APDUs are abstract in this model (their encodings are C01); sessions end at the first failing operation because "
+             "refused bytes stay in the library's buffer (C07). Trusted: Coq kernel, translator (state table), extraction + "
+             "driver, Python harness incl. the scripted io object.",
+        technique="Coq proof (induction over block lists on top of the association model) + scripted-session correspondence",
+        design="4/C19"),
     "C18": dict(
         text="Coq theorems (axiom-free) about the model of SerialHdlcTransport: a request that fits the maximum "
              "information size is written as one unsegmented information frame carrying LLC||APDU with the link's "
